@@ -213,8 +213,18 @@ func (g *c05Gen) c05LimOps() []c05Op {
 		}
 		switch {
 		case op.K == 2:
+			// mostly a holder of NEO voting for a registered candidate (a vote that succeeds emits "Vote" and may claim GAS)
+			var holders []int
+			for _, x := range c05Signers {
+				if g.neoBal(x) > 0 {
+					holders = append(holders, x)
+				}
+			}
+			if len(holders) > 0 && r.chance(85) {
+				op.F = pick(r, holders)
+			}
 			op.To = pick(r, c05Signers)
-			if reg := g.registered(); len(reg) > 0 && r.chance(70) {
+			if reg := g.registered(); len(reg) > 0 && r.chance(85) {
 				op.To = g.c.u.acctOfKey[pick(r, reg)]
 			}
 			if r.chance(20) {
@@ -241,13 +251,18 @@ func (g *c05Gen) c05LimOps() []c05Op {
 		}
 		// the notifications the call itself is expected to add when it succeeds
 		own := 1
-		if op.K == 0 {
+		switch op.K {
+		case 0:
 			own += r.intn(3) // GAS claims of the two sides
+		case 2:
+			own += r.intn(2) // "Vote" and the voter's GAS claim
+		case 3:
+			own += 1 + r.intn(2) // the burn and "CandidateStateChanged"
 		}
 		if op.To == c05ANotifier && op.K <= 1 {
 			own += int(op.A % 1000)
 		}
-		slack := pick(r, []int{-2, -1, 0, 0, 0, 1, 1, 2, 3, 40}) // 1 = the first notification that does not fit
+		slack := pick(r, []int{-2, -1, 0, 0, 0, 1, 1, 1, 2, 40}) // 1 = the first notification that does not fit
 		total := 512 + slack
 		switch y := r.intn(10); {
 		case y < 5: // everything before the call
